@@ -543,10 +543,15 @@ def check(ctx):
                         subj = rg.origin(o_[1].args[0])
                     elif o_[0] in ("arg", "proj"):
                         subj = o_
+                    fields_ = []
                     while subj is not None and subj[0] in ("proj", "ref") and isinstance(subj[1], tuple):
+                        if subj[0] == "proj":
+                            fields_ = [str(pj).split(".")[-1] for pj in subj[2] if isinstance(pj, str) and re.search(r"[A-Za-z_]\w*\.[a-z_]\w*$", pj) and not pj.startswith(("as:", "std::", "core::"))] + fields_
                         subj = subj[1]
-                    if subj is not None and subj[0] == "arg" and len(subj) > 2 and subj[2] not in ("config_file",) and rg.arg_count >= subj[1]:
-                        others.append(str(subj[2]))
+                    # (the command-line values may arrive as fields of one parameter struct: `cli.config_file`)
+                    name_ = fields_[-1] if fields_ else (subj[2] if subj is not None and subj[0] == "arg" and len(subj) > 2 else None)
+                    if subj is not None and subj[0] == "arg" and name_ not in (None, "config_file") and rg.arg_count >= subj[1]:
+                        others.append(str(name_))
                 if others:
                     r3.bad(V(r3.id, rg.id, "default-because-flags-given:%s" % ",".join(sorted(set(others))), "GenerateConfig::default() is chosen under a test of the "
                              "command-line value(s) %s: a configuration file that discovery would find is skipped, and with it every setting no flag replaces" % sorted(set(others)), c.file, c.line))
